@@ -101,11 +101,18 @@ def isRef : Expr → Bool
   | .varRef v _ => v != ['n', 'o', 'w', '(', ')']
   | _ => false
 
-/-- Operands `CReduce` leaves alone under any `NowValuer`. -/
-def isInert : Expr → Bool
-  | .varRef v _ => v != ['n', 'o', 'w', '(', ')']
-  | .string _ | .number _ | .integer _ | .unsigned _ | .boolean _ | .duration _ | .regex _ => true
-  | _ => false
+mutual
+  /-- Operands `CReduce` leaves alone under any `NowValuer`: references, literals, and calls
+  (other than `now`) whose arguments are such operands. -/
+  def isInert : Expr → Bool
+    | .varRef v _ => v != ['n', 'o', 'w', '(', ')']
+    | .string _ | .number _ | .integer _ | .unsigned _ | .boolean _ | .duration _ | .regex _ => true
+    | .call name args => name != ['n', 'o', 'w'] && isInertArgs args
+    | _ => false
+  def isInertArgs : List Expr → Bool
+    | [] => true
+    | a :: rest => isInert a && isInertArgs rest
+end
 
 /-- A predicate that relates a tag or field to a reference or literal. -/
 def stablePred (l r : Expr) : Bool := (isRef l && isInert r) || (isInert l && isRef r)
